@@ -2,6 +2,7 @@
 
 from __future__ import annotations
 
+import os
 import random
 import shutil
 import tempfile
@@ -42,7 +43,8 @@ def required(tier):
                     'ids:no', 'inputs:1', 'inputs:6', 'layout:inputs-in-separate-directories',
                     'metadata:non-ascii-text', 'naming:pattern:index-in-directory',
                     'naming:pattern:zero-padded',
-                    'layout:associated-parts-cut-at-other-boundaries'],
+                    'layout:associated-parts-cut-at-other-boundaries',
+                    'layout:inputs-are-symbolic-links-to-equally-named-files'],
         'counters': {'seam_reads': 50, 'beyond_end_reads': 10, 'id_lookups': 50},
         'evaluations': 300,
     }
@@ -83,12 +85,17 @@ def one_merge(rng, workdir: Path, rec, k):
     all_trajs = []
     max_nb = 1
     spread = (not pattern) and rng.random() < 0.4     # every input in a directory of its own
+    # inputs handed over as symbolic links with distinct names; the files they point to all
+    # have the SAME name, each in a directory of its own (e.g. run_3/out.nc)
+    linked = (not pattern) and (not with_assoc) and rng.random() < 0.25
     for j_, name in enumerate(names):
         dd = d / f'dir{j_}' if spread else d
         if dir_pattern:
             dd = d / ('slice_' + fmt.format(index=start + j_))
+        if linked:
+            dd = d / f'run_{j_}'
         dd.mkdir(exist_ok=True)
-        base = dd / f'{name}.nc'
+        base = dd / (f'{name}.nc' if not linked else 'out.nc')
         assoc = dd / f'x_{name}.nc'
         kw = {}
         if with_assoc:
@@ -113,6 +120,15 @@ def one_merge(rng, workdir: Path, rec, k):
         seams.append(len(model))
         bases.append(base)
         assocs.append(assoc)
+    if linked:
+        (d / 'links').mkdir()
+        link_paths = []
+        for name, target in zip(names, bases):
+            lp = d / 'links' / f'{name}.nc'
+            os.symlink(target.resolve(), lp)
+            link_paths.append(lp)
+        bases = link_paths
+        rec.cls('layout:inputs-are-symbolic-links-to-equally-named-files')
     repartitioned = False
     if with_assoc and not pattern and not per_part_species and nin >= 2 and len(model) > nin \
             and rng.random() < 0.45:
